@@ -48,6 +48,14 @@ Proof. exact dense_sparse_agree. Qed.
       ++ for each partition its constraints,
     the two tracking lists are the scalar / LMI projections of that sequence, the maximised leaf is the
     fresh objective leaf, and F was dimensioned after every leaf had been created. *)
+(** Declaration copies.  The declared model is a value ([model]: functional lists of dictionaries): an LMI is the
+    matrix of dictionaries its entries had WHEN add_psd_matrix WAS CALLED, so a later mutation of the caller's
+    container (an ndarray buffer overwritten or re-used for another declaration, a nested list modified in place)
+    cannot change [m], hence not what [collect] sends.  Nothing in Model/Collect.v is needed for that; the tie is
+    the collect stream, whose programs declare LMIs from nested lists / tuples / object ndarrays, overwrite and
+    re-use those containers afterwards, and compare what reaches the recording wrapper with the entries
+    snapshotted at declaration time (harness/p_c05.py [declare_lmi]).  Scalar constraints are single objects
+    (no caller-owned container is retained), so the question only arises for LMIs. *)
 Theorem C05_collect :
   forall m : model, collect solve_plan m = Some (expected_result m).
 Proof. exact collect_correct. Qed.
